@@ -362,7 +362,7 @@ bytes consumed). non-trivial = (case, p) with p strictly inside the head, or the
     enums: &[],
     randoms: &[RandomDef {
         name: "handshakes",
-        cases: |t: Tier| t.pick(30_000, 600_000),
+        cases: |t: Tier| t.pick(30_000, 3_000_000),
         tape_len: 1_200,
         exec: None,
     }],
